@@ -140,6 +140,8 @@ func NewReceiver(p2pHost host.Host, topicName string, options ...Option) (*Recei
 
 	if p2pHost != nil {
 		r.hostID = p2pHost.ID()
+	}
+	if p2pHost != nil && topicSub != nil {
 		watchCtx, cancelWatch := context.WithCancel(context.Background())
 		r.cancelWatch = cancelWatch
 		r.watchDone = make(chan struct{})
